@@ -22,13 +22,16 @@ func init() {
 			{Fn: "H_script_hist", Params: k(1), Fuel: 30_000_000, Tier: "quick", Reach: []string{"end"}},
 			{Fn: "H_script_hist", Params: k(2), Fuel: 30_000_000, Tier: "quick", Reach: []string{"end"}},
 			{Fn: "H_script_hist", Params: k(3), Fuel: 60_000_000, Tier: "thorough", Reach: []string{"end"}},
+			{Fn: "H_layers", Fuel: 30_000_000, Tier: "quick", Reach: []string{"end"}},
+			{Fn: "H_onerror", Params: k(1), Fuel: 30_000_000, Tier: "quick", Reach: []string{"end"}},
+			{Fn: "H_onerror", Params: k(2), Fuel: 30_000_000, Tier: "quick", Reach: []string{"end"}},
 			{Fn: "H_mw", Params: n(1), Tier: "quick", Reach: []string{"end"}},
 			{Fn: "H_mw", Params: n(2), Tier: "quick", Reach: []string{"end"}},
 			{Fn: "H_mw", Params: n(3), Tier: "quick", Reach: []string{"end"}},
 			{Fn: "H_mw", Params: n(4), Tier: "quick", Reach: []string{"end"}},
 			{Fn: "H_mw", Params: n(5), Tier: "thorough", Reach: []string{"end"}},
 		},
-		Rule:        rule + "; H_step is the inductive step from an arbitrary state satisfying the representation invariant (covers histories of any length), H_hist enumerates all operation sequences of length k from the initial state with symbolic status codes/payloads; H_script_hist assembles a script handler from k operations out of {status, header, write, html(±code), redirect(±code), noContent(±code), writeHeader, cookie}, parses it with the real parser and serves it through the real Handler.ServeHTTP and ResponseWriter*Method wrappers (argument binding, parameter defaults) with symbolic status codes; H_mw checks the middleware order for every priority assignment",
+		Rule:        rule + "; H_step is the inductive step from an arbitrary state satisfying the representation invariant (covers histories of any length), H_hist enumerates all operation sequences of length k from the initial state with symbolic status codes/payloads; H_script_hist assembles a script handler from k operations out of {status, header, write, html(±code), redirect(±code), noContent(±code), writeHeader, cookie}, parses it with the real parser and serves it through the real Handler.ServeHTTP and ResponseWriter*Method wrappers (argument binding, parameter defaults) with symbolic status codes; H_layers spreads four operations over a closure middleware (before / after $next()) and the handler it wraps; H_onerror lets the handler throw after k operations and an onError callback answer; H_mw checks the middleware order for every priority assignment",
 		Assumptions: []string{"status codes in [100,999] (net/http's own precondition)", "recorder commits on first Write like net/http"},
 		Outside:     []string{"SendFile, Hijack, Flush, response formatter closures (success/error/format/view/file)", "script-level json() (needs encoding/json) and script histories longer than 3", "histories longer than 4 outside the inductive argument"},
 	})
@@ -175,9 +178,11 @@ func init() {
 			{Fn: "H_history", Params: k(1), Tier: "quick", Reach: []string{"end"}},
 			{Fn: "H_history", Params: k(2), Tier: "quick", Reach: []string{"end"}},
 			{Fn: "H_history", Params: k(3), Tier: "thorough", Reach: []string{"end"}},
+			{Fn: "H_autoload", Params: k(1), Fuel: 60_000_000, Tier: "quick", Reach: []string{"end"}},
+			{Fn: "H_autoload", Params: k(2), Fuel: 60_000_000, Tier: "thorough", Reach: []string{"end"}},
 		},
-		Rule:    rule + "; every history of k operations (op in {AddClass, AddFunc, AddInterface, GetClass, GetFunc, GetInterface}) x (VM in {base, temp1, temp2}) x (name in {a, A, b}: a case-fold collision and a distinct name); after each step a relational check compares what every other VM resolves for every pool name with what it resolved before the step (no name-matching model needed), and everything the base resolves must be resolvable through each temporary VM. Finite enumeration through the engine",
-		Outside: []string{"histories longer than 3, more than 2 temporary VMs, pools larger than 3 names", "instantiate/call/discard operations, LoadPkg autoloading from files"},
+		Rule:    rule + "; every history of k operations (op in {AddClass, AddFunc, AddInterface, GetClass, GetFunc, GetInterface}) x (VM in {base, temp1, temp2}) x (name in {a, A, b}: a case-fold collision and a distinct name); after each step a relational check compares what every other VM resolves for every pool name with what it resolved before the step (no name-matching model needed), and everything the base resolves must be resolvable through each temporary VM; H_autoload (virtual file system with a class file and an interface file below a registered namespace): k load steps (GetOrLoadClass, LoadPkg, GetOrLoadInterface, GetClass, GetInterface on any VM) followed by a probe on a temporary VM must give the probe the same answer as the history without the steps of the other temporary VM (non-interference). Finite enumeration through the engine",
+		Outside: []string{"histories longer than 3, more than 2 temporary VMs, pools larger than 3 names", "instantiate/call/discard operations; autoload histories longer than 2 steps, spl autoload callbacks, include/require"},
 	})
 
 	reg(Check{
